@@ -60,7 +60,10 @@ def make_pool(rng):
     for k in range(2):
         L, R, _ = gen.random_table_pair(rng, tok={'kind': 'ws', 'return_set': True}, max_rows=7,
                                         missing=0.12)
-        # letters only so that q-gram tokenizers see material too
+        # (the pool's tables are also profiled and converted: the profiler cannot address one of two
+        #  columns that share a label, so no duplicate labels here)
+        L.pop('dup_label', None)
+        R.pop('dup_label', None)
         tables['l'].append(L)
         tables['r'].append(R)
     if rng.random() < 0.35:
@@ -68,7 +71,9 @@ def make_pool(rng):
         # records must not carry over to later calls
         k = rng.randrange(2)
         words = ['w%d' % i for i in range(rng.choice([30, 200]))]
-        for spec, side in ((tables['l'][k], 'l'), (tables['r'][k], 'r')):
+        sides = rng.choice([((tables['l'][k], 'l'), (tables['r'][k], 'r')), ((tables['r'][k], 'r'),),
+                            ((tables['l'][k], 'l'),)])       # both sides, or short codes against long texts
+        for spec, side in sides:
             vals = spec['data'][side + 'attr']
             for i in range(len(vals)):
                 if isinstance(vals[i], str) and rng.random() < 0.6:
